@@ -1,5 +1,6 @@
 """Shared exec stub for the sandbox properties C04 / C05: what pedal's own code can observe of a student program
 is (text written to the captured stream, how it terminates); both are dictated by the harness."""
+import colorsys  # noqa: an innocent, already-imported module for the tamper action
 import io as _real_io
 import sys
 import types
@@ -41,12 +42,15 @@ TERMINATIONS = [
     ("SystemExit(3)", lambda: SystemExit(3), True),
     ("SystemExit()", lambda: SystemExit(), True),
     ("ZeroDivisionError", lambda: ZeroDivisionError("division by zero"), True),
+    ("KeyError()", lambda: KeyError(), True),
+    ("IndexError()", lambda: IndexError(), True),
+    ("UserError(1, 2)", lambda: UserError(1, 2), True),
     ("KeyboardInterrupt", lambda: KeyboardInterrupt(), False),
     ("GeneratorExit", lambda: GeneratorExit(), False),
     ("UserBase", lambda: UserBase("b"), False),
 ]
 
-state = {"text": "", "term": 0, "raised": None, "close": False, "calls": 0}
+state = {"text": "", "term": 0, "raised": None, "close": False, "calls": 0, "tamper": 0, "nest": None, "depth": 0}
 
 
 def fake_exec(code, data):
@@ -54,6 +58,20 @@ def fake_exec(code, data):
     sys.stdout.write(state["text"])
     if state["close"]:
         sys.stdout.close()          # a student program may close (or `with`-manage) the stream it was given
+    if state["nest"] is not None and state["depth"] == 0:
+        # student code triggers an instructor-supplied callable (mocked function / callable input) that uses the SAME
+        # sandbox again: a nested execution
+        state["depth"] = 1
+        try:
+            state["nest"].evaluate("2")
+        finally:
+            state["depth"] = 0
+    if state["tamper"] == 1:
+        sys.modules.pop("colorsys", None)            # a student program may delete ...
+    elif state["tamper"] == 2:
+        sys.modules["colorsys"] = None               # ... rebind ...
+    elif state["tamper"] == 3:
+        sys.modules["verif_fake_module"] = sys       # ... or add entries of the module table
     if "_" not in data:
         data["_"] = 0
     fac = TERMINATIONS[state["term"]][1]
